@@ -57,8 +57,13 @@ func init() {
 }
 
 func c17ShortInputs(c *fw.Ctx, name string, size int, good []byte, dec func(b []byte) error) bool {
-	// every length 0..size+2: shorter => error, >= size => accepted
+	// every length 0..size+2 and some much longer inputs: shorter => error, >= size => accepted (trailing bytes ignored)
+	lens := []int{}
 	for l := 0; l <= size+2; l++ {
+		lens = append(lens, l)
+	}
+	lens = append(lens, 2*size, 2*size+1, 3*size, 4*size+3, 255, 1000)
+	for _, l := range lens {
 		in := make([]byte, l)
 		copy(in, good)
 		var err error
@@ -312,7 +317,11 @@ func c17ACT(c *fw.Ctx, i int) {
 			},
 		}
 		for pi, mk := range pre {
-			for _, extra := range []int{0, 1, 2, 7} {
+			extras := []int{0, 1, 2, 7} // 8..15 bytes: the short form
+			if hasOff {
+				extras = []int{0, 1, 2, 7, 8, 9, 16, 100} // 16 bytes and anything longer: the extended form, trailing bytes ignored
+			}
+			for _, extra := range extras {
 				in := append(append([]byte{}, want...), make([]byte, extra)...)
 				for q := len(want); q < len(in); q++ {
 					in[q] = 0xEE
